@@ -12,8 +12,10 @@ from pathlib import Path
 from . import coqrun
 
 VERIF = coqrun.VERIF
-EVIDENCE = VERIF / 'evidence'
-REPLAYS = VERIF / 'replays'
+import os as _os
+_OUT = Path(_os.environ['TCV_OUT']) if _os.environ.get('TCV_OUT') else VERIF
+EVIDENCE = _OUT / 'evidence'
+REPLAYS = _OUT / 'replays'
 KNOWN_FILE = VERIF / 'known_findings.json'
 
 KERNEL_TB = [
@@ -94,7 +96,7 @@ def safe_impl(suite, case):
 
 
 def write_replay(pid, payload):
-    REPLAYS.mkdir(exist_ok=True)
+    REPLAYS.mkdir(parents=True, exist_ok=True)
     blob = json.dumps(payload, sort_keys=True, default=str, indent=1)
     h = hashlib.sha256(blob.encode()).hexdigest()[:8]
     path = REPLAYS / f'{pid}-{h}.json'
@@ -112,9 +114,19 @@ def run_suite(suite, rng, tier, stats, scale=1):
         obs = [safe_impl(suite, c) for c in cases]
     finally:
         suite.teardown()
+    unencodable = {}
     if suite.model:
-        pairs = [suite.encode(c, o) for c, o in zip(cases, obs)]
-        mism, errors = coqrun.eval_mismatches(suite, pairs, shard=suite.shard)
+        pairs, good = [], []
+        for i, (c, o) in enumerate(zip(cases, obs)):
+            try:
+                pairs.append(suite.encode(c, o))
+                good.append(i)
+            except Exception as e:   # the implementation answered with something the suite has no encoding for
+                pairs.append(None)
+                unencodable[i] = (f'the implementation\'s answer has an unexpected shape ({type(e).__name__}: {e}): '
+                                  f'{json.dumps(o, default=str)[:300]}')
+        m, errors = coqrun.eval_mismatches(suite, [pairs[i] for i in good], shard=suite.shard)
+        mism = [good[j] for j in m]
     else:   # a harness-only suite (runtime matter outside the model): oracle only
         pairs, mism, errors = [None] * len(cases), [], []
     failures = []
@@ -123,6 +135,8 @@ def run_suite(suite, rng, tier, stats, scale=1):
             msg = suite.oracle(c, o)
         except Exception as e:
             msg = f'oracle raised {type(e).__name__}: {e}'
+        if not msg and i in unencodable:
+            msg = unencodable[i]
         if msg:
             failures.append((i, msg))
     keys = set()
@@ -292,7 +306,7 @@ def main_check(prop, tier, seed, replay=None):
     )
     ev = dict(property_id=pid, tier=tier, seed=seed, level=prop.level, coverage=cov,
               assumptions=list(prop.assumptions), wall_s=round(wall, 2), violations=n_viol)
-    EVIDENCE.mkdir(exist_ok=True)
+    EVIDENCE.mkdir(parents=True, exist_ok=True)
     (EVIDENCE / f'{pid}.json').write_text(json.dumps(ev, indent=1, default=str, sort_keys=True))
 
     for line in known_lines:
